@@ -49,6 +49,28 @@ for pid, text in sorted(P2.items()):
         "level_note": NOTE2,
         "technique": "contract-based deductive verification per generated program: contracts derived from the XML by xmlsem, VCs from the ast of the emitted classes, z3 (sequences, uninterpreted folds with ground unfolding)",
     })
+P3 = {
+ "C01": ("exploration", "BOUNDED stand-in (not proved): the deductive lemma RT_T (chaining the proved C04/C06 pair lemmas through the emitted deserialize over WIRE_T in piece normal form) is not built; decided by runtime round trips of seeded valid values over every wire-unambiguous class of the realistic corpus and the enumerated specs. The ingredients it rests on are proved elsewhere: C02 (bytes = WIRE_T), C03 (deserialize = reading rules), C04/C06/C07 (writer->reader pairs, chunk isolation, codec)",
+         "runtime-checked round-trip contract on the real generated classes (bounded stand-in for the contract-based proof)"),
+ "C14": ("exploration", "BOUNDED stand-in (not proved): ProtocolEnumMeta.__call__ is six lines delegating to CPython's EnumMeta.__call__ / int.__new__, whose behaviour a VC could only assume; its runtime contract (the statement, clause by clause) is evaluated on hand-written and generated enums x integers under both installed interpreters",
+         "runtime-checked contract on the real ProtocolEnumMeta.__call__ under CPython 3.11 and 3.12 (bounded stand-in)"),
+ "C17": ("exploration", "BOUNDED stand-in for 'wherever it occurs': the real generator is run on the statement's rule catalogue x nesting positions x files and on every enumerated instruction sequence the independent rule reader xmlsem.wellformed finds ill-formed; it must raise and write no module for the offending class",
+         "runtime post-condition of the real generator over a rule-violation catalogue (bounded stand-in)"),
+ "C18": ("exploration", "BOUNDED stand-in (not proved): generation over valid trees x hash seeds x shuffled directory enumeration x both interpreters x pre-populated output must be byte-identical, complete and importable with every declared type exported; the code carrying this (set iteration, sorting, list surgery during iteration, os.walk, file writes) is outside the VC generator's fragment",
+         "runtime-checked contracts on ProtocolCodeGenerator.generate / CodeBlock.to_string outputs (bounded stand-in)"),
+}
+for pid, (lvl, text, tech) in sorted(P3.items()):
+    checks.append({
+        "property_id": pid,
+        "quick_cmd": f"python3-vt -m checks {pid} --tier quick",
+        "thorough_cmd": f"python3-vt -m checks {pid} --tier thorough",
+        "evidence_file": f"/verif/evidence/{pid}.json",
+        "replay_cmd_template": "python3-vt -m checks.replay {path}",
+        "engine": "E3-runtime-contracts",
+        "level_claimed": {"category": lvl, "text": text, "design_ref": "DESIGN.md section 5"},
+        "level_note": "Bounded: explores the stated finite set of cases only; nothing here is counted as proved. Oracle: xmlsem (trusted specification).",
+        "technique": tech,
+    })
 import os
 extra = []
 if os.path.exists('/verif/.work/manifest_extra.json'):
@@ -61,13 +83,14 @@ m = {
            "source_commits": [], "add_only": True},
  "engines": [
    {"name": "pyvc-E1", "path": "/verif/pyvc", "serves_properties": sorted(P), "kind_free_text": "ast->VC symbolic executor for a Python fragment + sidecar contracts + z3/cvc5 portfolio; native runtime evaluation of the same contract text for replay"},
+   {"name": "E3-runtime-contracts", "path": "/verif/xmlsem/natcheck.py", "serves_properties": ["C01", "C14", "C17", "C18"], "kind_free_text": "runtime-checked contracts on the real code (bounded stand-in where the VC generator does not reach); also the replay vehicle of E1/E2 counter-models"},
    {"name": "pyvc-E2", "path": "/verif/pyvc/gen_verify.py", "serves_properties": sorted(P2), "kind_free_text": "runs /repo's real generator on enumerated spec trees and verifies every emitted class against XML-derived contracts (xmlsem); native replay on the real generated code"},
  ],
  "checks": checks + extra.get("checks", []) if isinstance(extra, dict) else checks,
  "notes": "fix: commits in /repo: bde54fa (C11 _mod), 52a31ac (C02 boolean attributes), aadc2ea (C03 optional arrays), 2548e49 (C17 named hard-coded values), 4ae0d01 (C19 blob immutability). See known_findings.json and DESIGN.md.",
  "not_applicable": (extra.get("not_applicable") if isinstance(extra, dict) else None) or [
    {"property_id": p, "reason": "check under construction in this build phase (see DESIGN.md section 5); not claimed yet"} for p in
-   ["C01","C14","C17","C18"]] + [
+   []] + [
    {"property_id": "C20", "reason": "import-system namespace property: no function pre/post state a contract could speak about; a symbolic namespace evaluator would be a model (other family), a runtime check plain testing - DESIGN.md section 8"}],
 }
 json.dump(m, open('/verif/MANIFEST.json','w'), indent=1)
